@@ -67,15 +67,28 @@ func addEPB(in []byte) []byte {
 
 // h264SPS builds a baseline-profile SPS with pic_order_cnt_type = 2 (DTS = PTS).
 // fpsNum/fpsDen = 0 omits the VUI timing info.
-func h264SPS(wMB, hMB int, level int, fpsNum, fpsDen uint32) []byte {
+func h264SPS(wMB, hMB int, level int, fpsNum, fpsDen uint32, reorder bool) []byte {
 	w := &bitW{}
-	w.bits(66, 8)   // profile_idc
-	w.bits(0xc0, 8) // constraint flags
-	w.bits(uint64(level), 8)
-	w.ue(0) // sps id
-	w.ue(0) // log2_max_frame_num_minus4
-	w.ue(2) // pic_order_cnt_type
-	w.ue(1) // max_num_ref_frames
+	if reorder {
+		// Main profile, picture order count signalled in every slice header (type 0, 8-bit lsb): streams with
+		// B-frames, whose decode order differs from their presentation order
+		w.bits(77, 8)
+		w.bits(0x40, 8)
+		w.bits(uint64(level), 8)
+		w.ue(0) // sps id
+		w.ue(0) // log2_max_frame_num_minus4
+		w.ue(0) // pic_order_cnt_type
+		w.ue(4) // log2_max_pic_order_cnt_lsb_minus4
+		w.ue(2) // max_num_ref_frames
+	} else {
+		w.bits(66, 8)   // profile_idc
+		w.bits(0xc0, 8) // constraint flags
+		w.bits(uint64(level), 8)
+		w.ue(0) // sps id
+		w.ue(0) // log2_max_frame_num_minus4
+		w.ue(2) // pic_order_cnt_type
+		w.ue(1) // max_num_ref_frames
+	}
 	w.bits(0, 1)
 	w.ue(uint64(wMB - 1))
 	w.ue(uint64(hMB - 1))
@@ -140,6 +153,8 @@ type videoParams struct {
 	// AV1
 	seqHdr []byte
 	desc   string
+	// H264: picture order count type 0 (B-frames); slices then carry a parsable header
+	reorder bool
 }
 
 var h265SPSs = [][]byte{
@@ -171,14 +186,21 @@ var av1SeqHdrs = [][]byte{
 }
 
 // videoParamVariant returns the k-th parameter-set variant of a codec.
-func videoParamVariant(codec string, k int) *videoParams {
+func videoParamVariant(codec string, k int) *videoParams { return videoParamVariantR(codec, k, false) }
+
+// videoParamVariantR: reorder selects (H264 only) parameter sets of a stream with B-frames.
+func videoParamVariantR(codec string, k int, reorder bool) *videoParams {
 	p := &videoParams{desc: fmt.Sprintf("%s#%d", codec, k)}
 	switch codec {
 	case "h264":
 		dims := [][2]int{{120, 68}, {80, 45}, {40, 30}, {20, 15}}
 		d := dims[k%len(dims)]
 		fps := [][2]uint32{{30, 1}, {0, 0}, {25, 1}, {30000, 1001}}[k%4]
-		p.sps = h264SPS(d[0], d[1], 30+(k/4)%3, fps[0], fps[1])
+		p.sps = h264SPS(d[0], d[1], 30+(k/4)%3, fps[0], fps[1], reorder)
+		p.reorder = reorder
+		if reorder {
+			p.desc += "b"
+		}
 		p.pps = []byte{0x68, 0xce, 0x38, byte(0x80 | (k/len(dims))&0x3f)}
 	case "h265":
 		p.sps = h265SPSs[k%len(h265SPSs)]
@@ -313,6 +335,9 @@ type unit struct {
 	carries bool     // carries in-band parameter sets
 	sep     [][]byte // parameter sets written in a call of their own right before this unit (then not part of data)
 	payload []byte   // expected container payload (fMP4 sample payload)
+	// streams with B-frames: the decode time is whatever the library derives from the bitstream; it is taken from
+	// the container the first time the unit is decoded there (dtsKnown) and every oracle works from that value
+	dtsKnown bool
 }
 
 func avcc(nalus [][]byte) []byte {
@@ -327,16 +352,58 @@ func avcc(nalus [][]byte) []byte {
 }
 
 // buildVideoUnit creates the data for one video access unit.
+// slicePos places a picture of a stream with B-frames: its picture order count (relative to the last IDR),
+// its frame_num, and whether it is a non-reference B picture.
+type slicePos struct {
+	poc, frameNum int
+	b             bool
+}
+
+// h264SliceStart writes the beginning of a slice header as far as pic_order_cnt_lsb (what a timestamp
+// extractor reads), for the parameter sets of h264SPS(reorder=true); the rest of the NAL unit is opaque.
+func h264SliceStart(idr bool, sp slicePos) []byte {
+	w := &bitW{}
+	w.ue(0) // first_mb_in_slice
+	switch {
+	case idr:
+		w.ue(7) // I
+	case sp.b:
+		w.ue(6) // B
+	default:
+		w.ue(5) // P
+	}
+	w.ue(0)                           // pic_parameter_set_id
+	w.bits(uint64(sp.frameNum&15), 4) // frame_num
+	if idr {
+		w.ue(0) // idr_pic_id
+	}
+	w.bits(uint64(sp.poc&255), 8) // pic_order_cnt_lsb
+	for w.nbit%8 != 0 {
+		w.bits(1, 1)
+	}
+	return addEPB(w.b)
+}
+
 func buildVideoUnit(codec string, track, idx int, key bool, p *videoParams, inband bool, size int) (data [][]byte, payload []byte) {
+	return buildVideoUnitAt(codec, track, idx, key, p, inband, size, slicePos{})
+}
+
+func buildVideoUnitAt(codec string, track, idx int, key bool, p *videoParams, inband bool, size int, sp slicePos) (data [][]byte, payload []byte) {
 	body := taggedPayload(track, idx, size)
 	switch codec {
 	case "h264":
 		if inband {
 			data = append(data, p.sps, p.pps)
 		}
-		if key {
+		if p.reorder {
+			body = append(h264SliceStart(key, sp), body...)
+		}
+		switch {
+		case key:
 			data = append(data, append([]byte{0x65}, body...))
-		} else {
+		case sp.b:
+			data = append(data, append([]byte{0x01}, body...)) // nal_ref_idc 0: not used for reference
+		default:
 			data = append(data, append([]byte{0x41}, body...))
 		}
 		payload = avcc(data)
